@@ -22,6 +22,7 @@ type ConvObs struct {
 	CallTerm  string // what the identity body received
 	CallLog   []Invocation
 	SameShape bool // the identity call met the same choice points as Convert
+	Sorted    bool // the execution used sorted order everywhere (then both runs did)
 }
 
 type recordedChoice struct {
@@ -104,6 +105,7 @@ func RunConvDiff(s Scenario) (o Outcome) {
 		c.SameShape = false
 	}
 	c.CallErr = r.Err()
+	c.Sorted = PureOrder && !ReverseOrder
 	c.CallTerm = received
 	c.CallLog = w2.Log.Inv
 	return
@@ -126,7 +128,11 @@ func CheckConv(props map[string]bool, s Scenario, o Outcome) []Finding {
 	if c == nil || o.BuildErr != "" {
 		return fs
 	}
-	if (c.ConvErr == nil) != (c.CallErr == nil) && c.SameShape {
+	// the two runs are comparable when the identity call replayed Convert's choices, or
+	// when both ran under sorted order (a Convert that meets different choice points
+	// than the identity call can only be compared under one global policy)
+	comparable := c.SameShape || c.Sorted
+	if (c.ConvErr == nil) != (c.CallErr == nil) && comparable {
 		add("C10", "disagree", "Convert error=%v but calling func(T) T with the same arguments gives error=%v", c.ConvErr != nil, c.CallErr != nil)
 	}
 	T := typeOf(s.Target.In[0].T)
@@ -141,7 +147,7 @@ func CheckConv(props map[string]bool, s Scenario, o Outcome) []Finding {
 			if !c.ConvType.AssignableTo(T) {
 				add("C10", "type", "Convert returned a %v, not assignable to %v", c.ConvType, T)
 			}
-			if c.CallErr == nil && c.SameShape && c.ConvTerm != c.CallTerm {
+			if c.CallErr == nil && comparable && c.ConvTerm != c.CallTerm {
 				add("C10", "value", "Convert returned %s but the identity call would inject %s", c.ConvTerm, c.CallTerm)
 			}
 			// the returned value obeys C01: a supplied value or the output of an executed converter, label-compatible
@@ -154,7 +160,7 @@ func CheckConv(props map[string]bool, s Scenario, o Outcome) []Finding {
 			}
 		}
 	}
-	if c.SameShape && invString(c.ConvLog) != invString(c.CallLog) {
+	if comparable && invString(c.ConvLog) != invString(c.CallLog) {
 		add("C10", "log", "Convert executed [%s], the identity call [%s]", invString(c.ConvLog), invString(c.CallLog))
 	}
 	// every converter body executed during Convert received correct bindings
